@@ -1,6 +1,6 @@
 (* C08/Order.v — the reference order [icmp] is a total preorder consistent with == on NaN-free values; the hand-written
-   Ord agrees with it on NaN-free pairs whose comparison never meets two different signatures ([clash] = false).
-   From that: reflexivity of ==, consistency and transitivity of cmp, PartialOrd = Ord, outside the known classes. *)
+   Ord (with Signature::cmp as repaired by fix: commit 668536e1) agrees with it on all NaN-free pairs.
+   From that: reflexivity of ==, consistency and transitivity of cmp, PartialOrd = Ord, for NaN-free values. *)
 From ZV Require Import Base.Bytes Base.Res Base.Sig Base.WinnowFacts
      C08.Model C08.Spec C08.Algebra C08.SigFacts C08.ValueFacts.
 
@@ -57,18 +57,14 @@ Section Cond.
     - exfalso. eapply Hx; eauto.
   Qed.
 
-  (* the partial lexicographic comparison equals the reference one as long as no clash is met *)
-  Lemma lex_p_agree (c : A -> A -> option comparison) (t : A -> A -> comparison) (cl e : A -> A -> bool) xs :
-    Forall (fun x => forall y, p x -> p y -> cl x y = false -> c x y = Some (t x y)) xs ->
-    Forall (fun x => forall y, p x -> p y -> (t x y = Eq <-> e x y = true)) xs ->
-    Forall p xs -> forall ys, Forall p ys -> clash_l cl e xs ys = false -> lex_p c xs ys = Some (lex t xs ys).
+  (* the partial lexicographic comparison equals the reference one when the element comparisons do *)
+  Lemma lex_p_agree (c : A -> A -> option comparison) (t : A -> A -> comparison) xs :
+    Forall (fun x => forall y, p x -> p y -> c x y = Some (t x y)) xs ->
+    Forall p xs -> forall ys, Forall p ys -> lex_p c xs ys = Some (lex t xs ys).
   Proof.
-    induction 1 as [|x xs Hx _ IH]; intros He Hp [|y ys] Hq; simpl; try reflexivity.
-    inversion He; inversion Hp; inversion Hq; subst.
-    rewrite orb_false_iff. intros [Hc Hr]. rewrite (Hx y); auto.
-    destruct (t x y) eqn:E; simpl; try reflexivity.
-    apply IH; auto. apply andb_false_iff in Hr as [Hr|Hr]; [|exact Hr].
-    match goal with H : forall y, p x -> p y -> _ |- _ => apply H in E; auto end. congruence.
+    induction 1 as [|x xs Hx _ IH]; intros Hp [|y ys] Hq; simpl; try reflexivity.
+    inversion Hp; inversion Hq; subst. rewrite (Hx y); auto.
+    destruct (t x y); simpl; try reflexivity. apply IH; auto.
   Qed.
 End Cond.
 
@@ -182,52 +178,38 @@ Proof.
     pose proof (icmp_dual a a) as D; rewrite E in D; discriminate D.
 Qed.
 
-(* ---- the hand-written order agrees with the reference order outside the known classes ---- *)
-Definition cl2 (p q : value * value) : bool :=
-  match p, q with (a1, a2), (b1, b2) => clash a1 b1 || (veq a1 b1 && clash a2 b2) end.
+(* ---- the hand-written order IS the reference order on NaN-free values ---- *)
+Lemma othen_Some o k : othen (Some o) (Some k) = Some (cthen o k).
+Proof. destruct o; reflexivity. Qed.
 
-Lemma vpcmp_agree : forall a b, nf a -> nf b -> clash a b = false -> vpcmp a b = Some (icmp a b).
+Lemma vpcmp_agree : forall a b, nf a -> nf b -> vpcmp a b = Some (icmp a b).
 Proof.
-  induction a using value_ind'; intros y Ha Hb Hc; rewrite icmp_unfold;
+  induction a using value_ind'; intros y Ha Hb; rewrite icmp_unfold;
     destruct y; try reflexivity; simpl in *;
     try (rewrite Z.compare_refl; reflexivity).
   - destruct b, b0; reflexivity.
   - unfold nf in Ha, Hb. simpl in Ha, Hb. unfold f_pcmp. rewrite Ha, Hb. reflexivity.
-  - apply negb_false_iff, sig_eqb_eq in Hc. subst. rewrite sig_cmp_refl, sig_tcmp_refl. reflexivity.
-  - rewrite (IHa y Ha Hb Hc). reflexivity.
-  - apply nf_array in Ha. apply nf_array in Hb. apply orb_false_iff in Hc as [Hc1 Hc2].
-    rewrite (lex_p_agree nf vpcmp icmp clash veq l); auto.
-    + destruct (lex icmp l elems) eqn:E; simpl; try reflexivity.
-      apply (lex_Eq_p nf icmp veq l) in E; auto.
-      * rewrite E in Hc2. simpl in Hc2. apply negb_false_iff, sig_eqb_eq in Hc2. subst.
-        rewrite sig_cmp_refl, sig_tcmp_refl. reflexivity.
-      * eapply Forall_impl; [|exact H]. intros. apply icmp_Eq; auto.
-    + eapply Forall_impl; [|exact H]. intros. apply icmp_Eq; auto.
-  - apply nf_dict in Ha. apply nf_dict in Hb. apply orb_false_iff in Hc as [Hc1 Hc2].
-    assert (HE : Forall (fun x => forall y, nf2 x -> nf2 y -> (ic2 x y = Eq <-> eq2 x y = true)) l).
-    { clear. induction l as [|[a1 a2] l IH]; constructor; auto. intros [y1 y2] [? ?] [? ?]. simpl in *.
-      rewrite cthen_Eq, andb_true_iff, !icmp_Eq; auto. reflexivity. }
-    fold pc2. rewrite (lex_p_agree nf2 pc2 ic2 cl2 eq2 l); auto.
-    + fold ic2. destruct (lex ic2 l entries) eqn:E; simpl; try reflexivity.
-      apply (lex_Eq_p nf2 ic2 eq2 l) in E; auto.
-      fold eq2 in Hc2. rewrite E in Hc2. simpl in Hc2. apply negb_false_iff, andb_true_iff in Hc2 as [E1 E2].
-      apply sig_eqb_eq in E1. apply sig_eqb_eq in E2. subst. rewrite !sig_cmp_refl, !sig_tcmp_refl. reflexivity.
+  - rewrite sig_cmp_tcmp. reflexivity.
+  - rewrite (IHa y Ha Hb). reflexivity.
+  - apply nf_array in Ha. apply nf_array in Hb.
+    rewrite (lex_p_agree nf vpcmp icmp l); auto. rewrite othen_Some, sig_cmp_tcmp. reflexivity.
+  - apply nf_dict in Ha. apply nf_dict in Hb.
+    fold pc2. rewrite (lex_p_agree nf2 pc2 ic2 l); auto.
+    + rewrite !sig_cmp_tcmp. fold ic2.
+      rewrite othen_Some. destruct (sig_tcmp k ksig); reflexivity.
     + eapply Forall_impl; [|exact H]. intros [a1 a2] [H1 H2] [y1 y2] [? ?] [? ?]. simpl in *.
-      rewrite orb_false_iff. intros [C1 C2]. rewrite H1; auto.
-      destruct (icmp a1 y1) eqn:E; simpl; try reflexivity.
-      apply icmp_Eq in E; auto. rewrite E in C2. simpl in C2. rewrite H2; auto.
+      rewrite H1, H2; auto. apply othen_Some.
   - apply nf_struct in Ha. apply nf_struct in Hb.
-    rewrite (lex_p_agree nf vpcmp icmp clash veq l); auto.
-    + destruct (lex icmp l fields) eqn:E; simpl; try reflexivity.
-      apply (lex_Eq_p nf icmp veq l) in E; auto.
-      * assert (Es : map value_signature l = map value_signature fields).
-        { eapply list_eqb_map; [|exact E]. clear. induction l; constructor; auto. intros. apply veq_sig. assumption. }
-        rewrite Es, sigs_cmp_refl. reflexivity.
-      * eapply Forall_impl; [|exact H]. intros. apply icmp_Eq; auto.
+    rewrite (lex_p_agree nf vpcmp icmp l); auto.
+    destruct (lex icmp l fields) eqn:E; simpl; try reflexivity.
+    apply (lex_Eq_p nf icmp veq l) in E; auto.
+    + assert (Es : map value_signature l = map value_signature fields).
+      { eapply list_eqb_map; [|exact E]. clear. induction l; constructor; auto. intros. apply veq_sig. assumption. }
+      rewrite Es, sigs_cmp_refl. reflexivity.
     + eapply Forall_impl; [|exact H]. intros. apply icmp_Eq; auto.
 Qed.
 
-Lemma vcmp_agree a b : nf a -> nf b -> clash a b = false -> vcmp a b = icmp a b.
+Lemma vcmp_agree a b : nf a -> nf b -> vcmp a b = icmp a b.
 Proof. intros. unfold vcmp. rewrite vpcmp_agree; auto. Qed.
 
 (* PartialOrd never answers None on NaN-free values, so it is Some(cmp) *)
